@@ -24,6 +24,13 @@ RULE = ("kinds: split (np.array_split grid, n > len included); uniq (select_uniq
         "missing chunks, no policy / KPerSamplePlatePolicy / stub policies; a subset through the CLI main()s incl. the '-1' file). "
         "Non-trivial: at least two plates or a non-degenerate script; distinct by canonical case description.")
 THEOREMS = {
+    "C06_model_is_source_select_next_plate": "the Gallina translation of the whole function select_next_plate regenerated from /repo's current scoring/main.py on this run (Generated/SrcScoring.v) equals, for all arguments, the model select_next (batch_plate_ids None = []; the code returns the Plate screen.get_plate(id), the model the id)",
+    "C06_model_is_source_score_chunk": "the translation of the whole function score_chunk regenerated on this run equals, for all arguments and ANY scorer (a function from the dict of plates it is handed to the dict of scores it returns), the model: score_chunk = what the scorer is handed, chunk_holder_of_answer = the holder filled from its answer",
+    "C06_model_is_source_chunk_holder": "instance: with a scorer returning one score per handed plate the translated score_chunk is the model's chunk_holder",
+    "C06_model_is_source_add_score": "the translation of ChunkedScoresHolder.add_score (arrays as lists; `a[i] = v` raising IndexError past the end) regenerated on this run equals the model add_score on the representation (scores, plate_ids, current_index) of a holder",
+    "C06_model_is_source_combine": "the translation of ChunkedScoresHolder.combine equals the model h_combine: ALL slots of both concatenated, current_index += len(other.scores)",
+    "C06_model_is_source_plate_id_with_minimum_score": "the translation of plate_id_with_minimum_score (None -> argmin over all slots; else isin mask, masked arrays, argmin, item) equals the model min_plate: id of the first slot of minimal score among the eligible ones, ValueError when none",
+    "C06_model_is_source_concat": "the translation of ChunkedScoresHolder.concat (ValueError on [], left fold of combine) equals the model h_concat",
     "C06_array_split_concat": "np.array_split model: the n >= 1 sections concatenate to the list (also n > len)",
     "C06_array_split_sizes": "there are n sections; the first len mod n have len/n+1 elements, the others len/n",
     "C06_candidates_spec": "candidate ids are strictly ascending and are exactly the ids of screen plates that have an unobserved row and are not in the batch",
@@ -52,7 +59,29 @@ ASSUMPTIONS = [
     "plate / sample / treatment ids are those the real Screen computed (the encoding is C01); a ScreenSubset is modelled as the list of (position, row) it selects in storage order",
     "select_next_plate is evaluated on the same screen and batch the chunks were scored with (as the orchestration script does)",
 ]
-EXPLANATION = ("Model: Model/Scores.v (screen rows, plates, candidates, np.array_split, first-occurrence unique, batch conditioning, "
+EXPLANATION = ("Tie to the code, two ways.  (1) Source-translation links: select_next_plate and score_chunk are re-translated as WHOLE functions "
+               "from /repo's current scoring/main.py on every run (harness/py2gal.py, configurations C06_SELECT / C06_SCORE_CHUNK in "
+               "harness/src_functions.py, output Generated/SrcScoring.v; fail-closed: a construct outside the fragment, a changed parameter "
+               "list, an undeclared variable or an unmatched call stops the build) and C06_model_is_source_* prove the hand-written models "
+               "equal to the translations for all inputs.  Everything structural comes from the translation: the `if x is None` defaults, "
+               "the comprehensions (also `in batch_plate_ids` on a possibly-None list), `if batch_plate_ids is not None` vs `if batch_plate_ids`, "
+               "the optional policy, the early return of None, the conditioning loop, the dict of plates, the holder-filling loop, the "
+               "propagation of every exception.  Trusted there: the translator (its rendering into Lib/PyRt.v) and exactly these primitives, "
+               "one attribute / library call each, with the meaning written next to them in Model/Scores.v: np.random.default_rng() (an unread "
+               "token), screen.plates = plates, plate.plate_id = p_id, plate.is_observed = is_observed, sorted(l, key=lambda p: p.plate_id) = "
+               "sorted_by_id (stable), policy.filter_eligible_plates(batch_plates, unobserved_plates, rng) = the policy function, "
+               "scores.plate_id_with_minimum_score(ids) = min_plate, screen.get_plate(i) = get_plate, plate.plate_name = plate_name (IndexError "
+               "iff the plate selects no row), np.array_split(l, n)[i].tolist() = array_split_at, ScreenSubset.concat(l) = subset_concat "
+               "(ValueError on [], the element itself for one, else the disjunction of the selection vectors), a.combine(b) = subset_union, "
+               "filter_dataset_to_unique_treatments(x) = uniq_first [] x, len(d), ChunkedScoresHolder(n) = holder_new, scorer.score(plates=d, ...) "
+               "= an arbitrary function of d, scores_holder.add_score(k, v) = add_score, a Plate used as a ScreenSubset = its rows; logger calls "
+               "are skipped.  ChunkedScoresHolder.add_score / combine / plate_id_with_minimum_score / concat are translated too (configurations "
+               "C06_ADD_SCORE, C06_COMBINE, C06_MIN_SCORE, C06_CONCAT; self.scores / self.plate_ids / self.current_index are state variables, the "
+               "numpy arrays lists) with primitives a[i] = v (list_set, IndexError outside the array), np.concatenate((a, b)) = a ++ b, len, "
+               "a.argmin() = position of the first minimum (ValueError on empty), a[i].item(), np.isin(a, l), a[mask] (boolean mask), l[0], l[1:], "
+               "x.combine(y) = h_combine inside concat; __init__, get_score, save_h5/load_h5 are not translated (correspondence only).  These primitives are the ones the correspondence below exercises (kinds split, uniq, holder, chunk, pipeline).  "
+               "(2) the differential correspondence.  "
+               "Model: Model/Scores.v (screen rows, plates, candidates, np.array_split, first-occurrence unique, batch conditioning, "
                "ChunkedScoresHolder with zero-initialised slots, argmin over the eligibility mask, select_next_plate, whole pipeline). "
                "Compared exactly per case: (plate id, row positions, sample ids, treatment ids) handed to the scorer per chunk, every "
                "holder's size/slots/current_index after save+load, the combined holder, the selected id; exceptions <-> Err. "
